@@ -1,3 +1,5 @@
+#[cfg(cachelito_verif)]
+use crate::verif_seams::sim_std as std;
 use std::time::Instant;
 
 /// Internal wrapper that tracks when a value was inserted into the cache.
